@@ -171,7 +171,9 @@ GRAPH_URL_LINES = ["%include etc:local.conf", "%include mailto:x", "%include htt
                    "%include a.conf#frag", "%include file:b.conf", "%include FILE:c.conf",
                    "%define u http://[", "%include $u",
                    "%include http://h:abc/x", "%include https://h:abc/x", "%include http://a b/x",
-                   "%include http://user:pw@h/x"]
+                   "%include http://user:pw@h/x",
+                   "%include package:.rel:x", "%include package:..:x", "%include package:zcv.:x",
+                   "%include package:ZConfig.components.basic:", "%include package:ZConfig.components.basic:nosuch.xml"]
 
 
 def gen_graph(rng, sm):
@@ -203,6 +205,17 @@ def check_graph(schema, files, main="a.conf", validator=False, schema_xml=None):
             sig = classify_exception(got[1], got[2], got[3])
             if sig:
                 out.append((sig, "%s: %s" % (type(got[1]).__name__, str(got[1])[:200])))
+        # the same graph entered from a text that has no URL of its own (a file-like object
+        # without a name): it can only include by absolute reference
+        from urllib.request import pathname2url
+        top = "%%include file://%s\n" % pathname2url(os.path.join(root, main))
+        got2 = loadcheck.real_load(schema, top, url=None)
+        if got2[0] == "internal":
+            sig = classify_exception(got2[1], got2[2], got2[3])
+            if sig:
+                out.append((sig + ":top-without-url", "%s: %s" % (type(got2[1]).__name__, str(got2[1])[:200])))
+        elif "internal" != got[0] and got2[0] != got[0]:
+            out.append(("top-without-url-changes-verdict:%s-vs-%s" % (got2[0], got[0]), ""))
         if validator and schema_xml is not None:
             import ZConfig.validator
             spath = os.path.join(root, "schema.xml")
